@@ -1743,7 +1743,7 @@ package formula
 //@   tags [C19,C03]
 //@   panics never
 //@   ensures result1 == nil
-//@   ensures[C19] result0 == tUnixNano(date) / 1000000
+//@   ensures[C19] result0 == tUnixMilli(date)
 
 //@ func funTimeFormat
 //@   tags [C19,C03]
